@@ -59,6 +59,9 @@ type nodeFilterIterator struct {
 
 	// filter indicates the node in n with the key ID should be filtered out.
 	filter map[int64]bool
+
+	// skipped is the number of filtered nodes that src has already passed.
+	skipped int
 }
 
 // newNodeFilterIterator returns a new nodeFilterIterator. The nodes in filter and
@@ -75,7 +78,7 @@ func newNodeFilterIterator(src, filter Nodes, root int64) *nodeFilterIterator {
 }
 
 func (n *nodeFilterIterator) Len() int {
-	return n.src.Len() - len(n.filter)
+	return n.src.Len() - (len(n.filter) - n.skipped)
 }
 
 func (n *nodeFilterIterator) Next() bool {
@@ -83,6 +86,7 @@ func (n *nodeFilterIterator) Next() bool {
 		if !n.filter[n.src.Node().ID()] {
 			return true
 		}
+		n.skipped++
 	}
 	return false
 }
@@ -93,4 +97,5 @@ func (n *nodeFilterIterator) Node() Node {
 
 func (n *nodeFilterIterator) Reset() {
 	n.src.Reset()
+	n.skipped = 0
 }
